@@ -21,31 +21,32 @@ const (
 // tunCfg is the swarm configuration of one tunnel run; every field is drawn from the "cfg"
 // decision sub-stream so that one seed fixes it.
 type tunCfg struct {
-	TCP        bool
-	R, T, H    time.Duration
-	LocalAddr  bool
-	Senders    int
-	SendsEach  int
-	Think      bool // senders pause between sends
-	Inbound    int  // telegrams the gateway pushes to the client
-	InboundGap time.Duration
-	Reader     string // ready | stalled | intermittent | absent
-	Closers    int
-	CloseEarly bool // closers fire while the workload is still running
-	Up, Down   simnet.Link
-	TimerLate  int
-	LateMax    time.Duration
-	Adversary  int // chaos frames injected
-	Director   int // epoch-level faults injected
-	Sticky     int
-	Window     int  // gateway's outbound window (1 = stop-and-wait)
-	ReuseChan  bool // the gateway hands out the same channel id again after a reconnect
-	WriteErr   int  // permille of the client's socket writes that fail (C10: "after the socket died")
-	ReadErr    bool // the client's socket read fails at a decision-chosen instant (ICMP error): the receiver ends
-	Starve     int  // permille of library goroutines held back at start
-	StarveMax  time.Duration
-	FaultFree  bool
-	MaxSteps   int
+	TCP         bool
+	R, T, H     time.Duration
+	LocalAddr   bool
+	Senders     int
+	SendsEach   int
+	Think       bool // senders pause between sends
+	Inbound     int  // telegrams the gateway pushes to the client
+	InboundGap  time.Duration
+	Reader      string // ready | stalled | intermittent | absent
+	Closers     int
+	CloseEarly  bool // closers fire while the workload is still running
+	Up, Down    simnet.Link
+	TimerLate   int
+	LateMax     time.Duration
+	Adversary   int // chaos frames injected
+	Director    int // epoch-level faults injected
+	Sticky      int
+	Window      int  // gateway's outbound window (1 = stop-and-wait)
+	ReuseChan   bool // the gateway hands out the same channel id again after a reconnect
+	ForeignOnly bool // the adversary only emits frames for channels that are not the client's; links lossless
+	WriteErr    int  // permille of the client's socket writes that fail (C10: "after the socket died")
+	ReadErr     bool // the client's socket read fails at a decision-chosen instant (ICMP error): the receiver ends
+	Starve      int  // permille of library goroutines held back at start
+	StarveMax   time.Duration
+	FaultFree   bool
+	MaxSteps    int
 }
 
 // SendCall is one application call of Tunnel.Send.
@@ -199,6 +200,18 @@ func drawTunCfg(e *Env) tunCfg {
 			c.Up.DropPermille, c.Down.DropPermille = c.Up.DropPermille/4, c.Down.DropPermille/4
 		}
 	case "C09":
+		if shape == 2 || shape == 3 {
+			// nothing is wrong with the live connection, but the wire is full of other connections' frames
+			c.ForeignOnly = true
+			c.FaultFree = true
+			c.Up, c.Down = drawLink(e, "up", false), drawLink(e, "down", false)
+			c.TimerLate = 0
+			c.Adversary = 5 + e.Choose("cfg.advf", 30)
+			c.Senders = 1 + e.Choose("cfg.senders3", 3)
+			c.SendsEach = 1 + e.Choose("cfg.sends12", 12)
+			c.Think = true
+			break
+		}
 		c.Director = 1 + e.Choose("cfg.dir5", 5)
 		c.Senders = e.Choose("cfg.senders3", 3)
 		c.SendsEach = 1 + e.Choose("cfg.sends12", 12)
@@ -234,10 +247,10 @@ func drawTunCfg(e *Env) tunCfg {
 }
 
 func (c tunCfg) String() string {
-	return fmt.Sprintf("tcp=%v R=%v T=%v H=%v local=%v senders=%dx%d think=%v inbound=%d/%v reader=%s closers=%d early=%v up={drop=%d dup=%d late=%d dmax=%v} down={drop=%d dup=%d late=%d dmax=%v} tlate=%d adv=%d dir=%d sticky=%d window=%d starve=%d/%v reusechan=%v werr=%d rerr=%v",
+	return fmt.Sprintf("tcp=%v R=%v T=%v H=%v local=%v senders=%dx%d think=%v inbound=%d/%v reader=%s closers=%d early=%v up={drop=%d dup=%d late=%d dmax=%v} down={drop=%d dup=%d late=%d dmax=%v} tlate=%d adv=%d dir=%d foreignonly=%v sticky=%d window=%d starve=%d/%v reusechan=%v werr=%d rerr=%v",
 		c.TCP, c.R, c.T, c.H, c.LocalAddr, c.Senders, c.SendsEach, c.Think, c.Inbound, c.InboundGap, c.Reader, c.Closers, c.CloseEarly,
 		c.Up.DropPermille, c.Up.DupPermille, c.Up.LatePermille, c.Up.DelayMax, c.Down.DropPermille, c.Down.DupPermille, c.Down.LatePermille, c.Down.DelayMax,
-		c.TimerLate, c.Adversary, c.Director, c.Sticky, c.Window, c.Starve, c.StarveMax, c.ReuseChan, c.WriteErr, c.ReadErr)
+		c.TimerLate, c.Adversary, c.Director, c.ForeignOnly, c.Sticky, c.Window, c.Starve, c.StarveMax, c.ReuseChan, c.WriteErr, c.ReadErr)
 }
 
 func idMessage(id int) cemi.Message {
@@ -522,7 +535,7 @@ func (r *tunRun) adversary() {
 		}
 		ch := uint8(e.Choose("flt.advch", 256))
 		own := false
-		if cur := r.gw.Cur(); cur != nil && e.Choose("flt.advown", 3) != 0 {
+		if cur := r.gw.Cur(); cur != nil && e.Choose("flt.advown", 3) != 0 && !c.ForeignOnly {
 			ch, own = cur.Channel, true
 		}
 		if cur := r.gw.Cur(); cur != nil && !own && ch == cur.Channel {
@@ -577,6 +590,9 @@ func (r *tunRun) adversary() {
 				r.gw.SendRaw(mkDiscRes(ch, st))
 			}
 		case "connres":
+			if c.ForeignOnly {
+				continue
+			}
 			// an unsolicited connect response while connected must be ignored
 			// (the channel is one no connection of this run uses: channel ids identify epochs)
 			e.Fault("unsolicited-connect-response")
